@@ -191,13 +191,36 @@ end
 def classOf (bits : Nat) (ast : List Pat) : String :=
   if wfPats bits false ast then "wf" else "outside-wf"
 
+mutual
+/-- (format, zone) requests of all date formatters, any depth -/
+def dateReqs : Pat → List (List Char × Bool)
+  | .date _ args _ => [dateRequest args]
+  | .group _ _ body _ => dateReqsL body
+  | _ => []
+def dateReqsL : List Pat → List (List Char × Bool)
+  | [] => []
+  | p :: ps => dateReqs p ++ dateReqsL ps
+end
+
+/-- the same format text is asked for in both zones -/
+def sameFormatBothZones (ast : List Pat) : Bool :=
+  let rs := dateReqsL ast
+  rs.any (fun (f, z) => rs.any (fun (f', z') => f = f' && z ≠ z'))
+
 def handle : Handler := fun cas obs =>
+  -- the fork family carries a marker field after the case and ` fork <pid> <tid> <ops>` after the
+  -- parent's observation
+  let isFork := cas.getLast? = some "fork"
+  let cas := if isFork then cas.dropLast else cas
   match cas with
   | astField :: rest =>
     match decAst astField, C11.decCase rest with
     | some ast, some c =>
       if showPats ast ≠ c.pattern then badCase "pattern is not the printed AST" else
-      match obs.flatMap (splitOnChar ' ') with
+      let parts := obs.flatMap (splitOnChar ' ')
+      let (parts, forkPart) :=
+        if isFork then (parts.takeWhile (· ≠ "fork"), (parts.dropWhile (· ≠ "fork")).drop 1) else (parts, [])
+      match parts with
       | implOutcome :: implOps :: factFields =>
         match C11.decFacts factFields with
         | none => badCase "facts"
@@ -208,8 +231,11 @@ def handle : Handler := fun cas obs =>
           let build := Build.current env
           let itemsRejected := (allDatesPats ast).any (fun fm => !build.dateOk fm)
           let cls := classOf C11.profile.wordBits ast
+          let bothZones := sameFormatBothZones ast
           let feats := (featuresOfL ast).eraseDups ++
-            (if hasDoubledCloseInArgL false ast then ["doubled-close-paren-in-arg"] else [])
+            (if hasDoubledCloseInArgL false ast then ["doubled-close-paren-in-arg"] else []) ++
+            (if bothZones then ["same-format-both-zones"] else []) ++
+            (if isFork then ["fork"] else [])
           let tags := cls :: ("depth" ++ toString (min (depthOfL ast) 6)) :: feats ++
             (if f.masked then ["masked"] else []) ++
             (if itemsRejected then ["date-format-rejected"] else []) ++
@@ -217,7 +243,9 @@ def handle : Handler := fun cas obs =>
           let sigOf (what : String) : String :=
             if cls = "wf" then "C09/" ++ what else "C09/" ++ cls
           let spec :=
-            if implOutcome.startsWith "PANIC" then
+            if f.tzOffset = 0 then
+              "FAIL:the exec process runs with local zone = UTC (harness zone not applied);sig=C09/harness-local-zone-is-utc"
+            else if implOutcome.startsWith "PANIC" then
               let bad := (datesPats env ast).any (fun (fm, _) => !env.strftimeOk fm)
               if bad then "FAIL:panic at encode;sig=C09/invalid-strftime" else "FAIL:panic;sig=" ++ sigOf "panic"
             else if implOutcome = "ok" then
@@ -225,12 +253,38 @@ def handle : Handler := fun cas obs =>
               | some txt, some sty =>
                 let want := C11.maskDigits f.masked (denotePats env c.record ast)
                 if itemsRejected then "ok"   -- outside `DatesOk`: C11's territory
-                else if txt ≠ want then "FAIL:text differs from the pattern's meaning;sig=" ++ sigOf "meaning"
+                else if txt ≠ want then
+                  -- each date formatter renders its own zone
+                  if bothZones then "FAIL:text differs from the pattern's meaning (same format in both zones);sig=C09/date-zone-confused"
+                  else "FAIL:text differs from the pattern's meaning;sig=" ++ sigOf "meaning"
                 else if sty ≠ stylesPats env c.record ast then "FAIL:style calls;sig=" ++ sigOf "styles"
                 else "ok"
               | _, _ => "FAIL:unreadable operation stream;sig=C09/ops"
             else "FAIL:outcome " ++ implOutcome ++ ";sig=" ++ sigOf "outcome"
-          { model, spec, tags }
+          if !isFork then { model, spec, tags } else
+          -- the child's encode: same pattern, same record, the child's own pid
+          match forkPart with
+          | [cp, ct, cops] =>
+            match decNat cp, decNat ct with
+            | some cpid, some ctid =>
+              let fc : C11.Facts := { f with pid := cpid, tid := ctid }
+              let envC := C11.envOf c fc
+              let childModel :=
+                match encList envC c.record (compileL (Build.current envC) ((match parse C11.driverClass C11.profile c.pattern with | .ok ps => ps | _ => []))) with
+                | .ok o => C11.renderOps false o
+                | _ => "PANIC"
+              let model := model ++ " fork " ++ cp ++ " " ++ ct ++ " " ++ childModel
+              let specFork :=
+                if spec ≠ "ok" then spec
+                else if cpid = f.pid then "FAIL:the child reports the parent's pid (fork did not happen);sig=C09/harness-fork"
+                else match C11.implText cops with
+                  | some txt =>
+                    if txt = denotePats envC c.record ast then "ok"
+                    else "FAIL:the child's rendering does not show the child's environment;sig=C09/pid-stale-after-fork"
+                  | none => "FAIL:child outcome " ++ cops ++ ";sig=C09/fork-child-outcome"
+              { model, spec := specFork, tags }
+            | _, _ => badCase "fork pids"
+          | _ => badCase "fork observation"
       | _ => badCase "observation"
     | none, _ => badCase "ast"
     | _, none => badCase "case"
